@@ -242,7 +242,12 @@ func (s *c09) gen0(r *kit.Rng) (kit.Op, bool) {
 				}
 			}
 			return kit.Op{K: k, D: kit.Hex(it)}, true
-		case "isloaded", "msg", "unload", "restart":
+		case "unload":
+			if r.Chance(1, 3) {
+				return kit.Op{K: "reload_nil"}, true // Reload(nil): the other way to unload
+			}
+			return kit.Op{K: k}, true
+		case "isloaded", "msg", "restart":
 			if k == "restart" && s.cur < 0 {
 				continue
 			}
@@ -517,6 +522,11 @@ func (s *c09) Apply(o kit.Op) *kit.Violation {
 		s.f.Unload()
 		s.setCur(-1)
 		s.st.Fault("unload")
+	case "reload_nil":
+		isFault = true
+		s.f.Reload(nil)
+		s.setCur(-1)
+		s.st.Fault("reload-nil")
 	case "reload_new", "reload_populated":
 		n, hf, tw, fl, ok := shapeOK(o)
 		if !ok {
